@@ -244,9 +244,12 @@ def substitute_function(fn) -> int:
             # the same for an attribute path set up once earlier in the function (self.records = []; members = self.records)
             for f in free:
                 if "." in f:
-                    sts = [x for x in _own_nodes(fn) if isinstance(x, ast.Attribute) and isinstance(x.ctx, ast.Store) and dotted(x) == f]
-                    if len(sts) == 1 and _before(sts[0], st):
-                        single_before.add(f)
+                    # ... also for a prefix of the path: `self.records = []; add = self.records.append`
+                    parts_ = f.split(".")
+                    for pre in (".".join(parts_[:k]) for k in range(len(parts_), 1, -1)):
+                        sts = [x for x in _own_nodes(fn) if isinstance(x, ast.Attribute) and isinstance(x.ctx, ast.Store) and dotted(x) == pre]
+                        if len(sts) == 1 and _before(sts[0], st):
+                            single_before.add(pre)
             # the root of an attribute path that is a local with one definition, placed before the alias (`values = []; append = values.append`):
             # the local names one object for the alias's whole life - its single store is not a re-binding
             stable_roots = set()
@@ -811,8 +814,19 @@ def propagate_atom_copies(fn) -> int:
             sparts = ds.split(".")
             return not any(".".join(sparts[:k]) in unstable for k in range(2, len(sparts) + 1))
 
+        def stable_local_path(v):
+            """`rec._desc` read once into a new local instead of two or three times: an attribute path on a local (a loop variable) that
+            nothing in the function stores to; that the local still names the same object at the use is checked with its reaching definitions."""
+            d = dotted(v) if isinstance(v, ast.Attribute) else None
+            if not d:
+                return False
+            parts = d.split(".")
+            if parts[0] not in stored_local or parts[0] in params_fn or parts[0] == selfname:
+                return False
+            return not ({".".join(parts[:k]) for k in range(2, len(parts) + 1)} & stored_paths_fn)
+
         cands = [st for st in own if isinstance(st, ast.Assign) and len(st.targets) == 1 and isinstance(st.targets[0], ast.Name) and is_new(st.targets[0].id)
-                 and (_atom(st.value, stored_local) or stable_param_path(st.value)) and st.targets[0].id not in nested_names and id(st) not in skip
+                 and (_atom(st.value, stored_local) or stable_param_path(st.value) or stable_local_path(st.value)) and st.targets[0].id not in nested_names and id(st) not in skip
                  and not any(isinstance(n, ast.Name) and n.id in unstable for n in ast.walk(st.value))]
         if not cands:
             break
@@ -828,6 +842,11 @@ def propagate_atom_copies(fn) -> int:
             return rd_cache[name]
 
         applied = False
+        cand_by_node = {}
+        for c_ in cands:
+            n_ = cfg.node_of(c_)
+            if n_ is not None:
+                cand_by_node[n_.id] = c_
         for st in sorted(cands, key=lambda a: (a.lineno, a.col_offset)):
             x = st.targets[0].id
             dn = cfg.node_of(st)
@@ -851,9 +870,17 @@ def propagate_atom_copies(fn) -> int:
                 reach = rd(x).get(un.id, set())
                 if dn.id not in reach:
                     continue
-                if reach != {dn.id} or un.id == dn.id:
+                if un.id == dn.id:
                     ok = False
                     break
+                if reach != {dn.id}:
+                    # the same atom assigned in every branch (`desc = rec._desc` in the if and in the else): all definitions that reach
+                    # the use are candidates with the same value, each still valid at the use
+                    twins_ = [cand_by_node.get(o) for o in reach - {dn.id}]
+                    if any(t_ is None or t_.targets[0].id != x or ast.dump(t_.value) != ast.dump(st.value) for t_ in twins_) or \
+                            any(rd(sn).get(un.id, set()) != rd(sn).get(o, set()) for o in reach - {dn.id} for sn in src_names):
+                        ok = False
+                        break
                 # the atom's own locals hold the same value at the use as at the definition
                 if any(rd(sn).get(un.id, set()) != rd(sn).get(dn.id, set()) for sn in src_names) or x in src_names:
                     ok = False
